@@ -36,6 +36,33 @@ pub fn all() -> Vec<PropSpec> {
             required_probes: &["a.zero_len_msg", "a.multi_chunk_msg", "a.setchunk", "a.multi_call_delivery"],
         },
         PropSpec {
+            id: "C06",
+            level: "exploration",
+            quick_runs: 400_000,
+            thorough_runs: 12_000_000,
+            run: |c| worlds::b::run_c06(c),
+            rule: "one run = one foreign chunk stream produced by the reference encoder for 1-10 messages sent one after another (free choices: csid 2..65599 biased to the 1/2/3-byte boundaries, any legal header format per message, extended timestamps incl. on continuation chunks, zero-length messages, in-band chunk sizes, non-negative deltas that wrap 2^32), cut by the link and decoded by the real deserializer; non-trivial = at least 2 messages; distinct = distinct schedule hash (per-chunk format/ext/csid choices + segment buckets); states = distinct chunk shapes",
+            real: &["ChunkDeserializer"],
+            stub: &["RefChunkEncoder (foreign sender)", "link (segmentation)", "receiver driver honouring SetChunkSize"],
+            assumptions: &[
+                "the reference encoder is hand-written from RTMP 1.0 section 5.3.1 and cross-validated against the strict reference decoder at every start",
+                "messages bounded to 5,000 chunks each",
+            ],
+            required_probes: &["b.fmt1", "b.fmt2", "b.fmt3_new_message", "b.ext_first", "b.ext_on_continuation", "b.csid_2byte", "b.csid_3byte", "b.zero_len_msg", "b.setchunk"],
+        },
+        PropSpec {
+            id: "C16",
+            level: "exploration",
+            quick_runs: 300_000,
+            thorough_runs: 10_000_000,
+            run: |c| worlds::b::run_c16(c),
+            rule: "one run = one foreign chunk stream with 2-4 messages in flight on distinct csids; the scheduler picks chunk by chunk which stream emits next (each message's own chunks stay in order); the real deserializer must deliver every message at its last chunk, in completion order, with its own fields and bytes; non-trivial = at least 2 switches between streams that both have a message in flight; distinct = distinct schedule hash (which stream emitted each chunk + segment buckets)",
+            real: &["ChunkDeserializer"],
+            stub: &["RefChunkEncoder (multiplexing foreign sender)", "link (segmentation)", "receiver driver"],
+            assumptions: &["chunk-size changes are emitted only while no message is in flight", "one message at a time per csid"],
+            required_probes: &["b.interleaved_run"],
+        },
+        PropSpec {
             id: "C07",
             level: "exploration",
             quick_runs: 400_000,
